@@ -280,22 +280,40 @@ def hyb_fixed():
     return _PROBE['fx']
 
 
-def tiers_as_written():
-    """TidemanAlternative beyond the first tier: RANKED_SUBSETTER.convert(tier_votes) without the subset -> TypeError (pinned
-    tree, modelled as H_type); cases with n_seats > 1 are only generated while that is what the implementation does"""
+def single_fixed():
+    """does a candidate that stands alone get elected (fixes/C05-hybrid-single-candidate.diff: 1) or do Benham / TidemanAlternative
+    run into the IndexError of eliminate_one on a profile without a pairwise contest (0)?  The model has both (Model/Hybrids.v sc);
+    the old behaviour is reported by hyb_spec as a violation (known finding C05-hybrid-empty-pairwise, status fixed)."""
+    if 'sc' not in _PROBE:
+        import votelib.evaluate.sequential as seq
+        r1 = common.call_impl(lambda: seq.Benham().evaluate({('A',): 1}, 1), 5)
+        r2 = common.call_impl(lambda: seq.TidemanAlternative().evaluate({('A',): 1}, 1), 5)
+        _PROBE['sc'] = 1 if (r1[0] == 'ok' and r2[0] == 'ok') else 0
+    return _PROBE['sc']
+
+
+def tiers_fixed():
+    """TidemanAlternative beyond the first tier: the votes restricted to the still eligible candidates
+    (fixes/C05-tideman-tiers.diff: 1) or RANKED_SUBSETTER.convert(tier_votes) without the subset -> TypeError (0, modelled as
+    H_type).  Cases with n_seats > 1 are always generated; the TypeError is a violation (known finding C08-tideman-multiseat,
+    status fixed)."""
     if 'tiers' not in _PROBE:
         import votelib.evaluate.sequential as seq
         r = common.call_impl(lambda: seq.TidemanAlternative().evaluate({('A', 'B'): 2, ('B', 'A'): 1}, 2), 5)
-        _PROBE['tiers'] = (r[0] == 'err' and r[1] == common.E['TYPE'])
+        _PROBE['tiers'] = 0 if (r[0] == 'err' and r[1] == common.E['TYPE']) else 1
     return _PROBE['tiers']
+
+
+def tiers_as_written():
+    return not tiers_fixed()
 
 
 def hyb_line(c):
     m, prof = c['method'], sx(c['profile'])
     if m == 'benham':
-        return '%d (%d %s)' % (HB + 0, hyb_fixed(), prof)
+        return '%d (%d %d %s)' % (HB + 0, hyb_fixed(), single_fixed(), prof)
     if m == 'tideman_alt':
-        return '%d (%d %s %d)' % (HB + 1, hyb_fixed(), prof, c['n'])
+        return '%d (%d %d %d %s %d)' % (HB + 1, hyb_fixed(), single_fixed(), tiers_fixed(), prof, c['n'])
     if m == 'to_condorcet':
         return '%d (%s)' % (HB + 2, prof)
     if m == 'subsetter':
@@ -342,35 +360,68 @@ def hyb_canon(c, wire):
     return ('ok', tuple(tuple(sorted(r)) if isinstance(r, list) else r for r in v[1]))
 
 
+def restrict_pairwise(pwv, keep):
+    return [[[a, b], k] for (a, b), k in pwv if a in keep and b in keep]
+
+
 def hyb_spec(c, io, mo):
     """the declarative clauses on the implementation's answer, against the INDEPENDENT pairwise count of the profile"""
     if c['method'] not in HYBRIDS:
         return None
     v = common.parse_sx(io)
     pwv, allc = ref_pairwise(c['profile'], True)
+    if not allc:
+        return None                    # nobody stands: outside the property
     cw = pw.ref_cw(pwv) if pwv else []
     if v[0] != 0:
-        if v[1] == common.E['TYPE'] and c['method'] == 'tideman_alt' and c['n'] != 1 and v == common.parse_sx(mo):
-            return None                # the unimplemented further tiers of the pinned tree (C05 observes evaluate(votes, 1))
-        if not pwv:
+        if v[1] == common.E['TYPE'] and c['method'] == 'tideman_alt' and c['n'] != 1:
+            c['_class'] = 'tiers-typeerror'
+            return 'TypeError from the tiers after the first (RANKED_SUBSETTER.convert without the eligible candidates)'
+        several = c['method'] == 'tideman_alt' and c['n'] != 1
+        if v[1] == common.E['NIE'] and (not cw or several):
+            return None                # the declared refusal: a tie in the elimination (several seats: of a later tier)
+        if not pwv or (several and v[1] == common.E['INDEX']):
             c['_class'] = 'degenerate'
-            return 'undeclared exception %s on a profile whose pairwise dictionary is empty' % common.E_NAME.get(v[1], v[1])
+            return ('undeclared exception %s on a profile / in a tier without a pairwise contest (%d candidate(s) stand)'
+                    % (common.E_NAME.get(v[1], v[1]), len(allc)))
         if cw:
             c['_class'] = 'cw-refused'
             return 'refuses (%s) although %s is the Condorcet winner of the profile' % (common.E_NAME.get(v[1], v[1]), cw)
-        if v[1] == common.E['NIE']:
-            return None                # the declared refusal
         c['_class'] = 'tie-leak'
         return 'undeclared exception %s' % common.E_NAME.get(v[1], v[1])
     res = v[1]
-    if cw and res != [cw[0]]:
+    if cw and res[:1] != [cw[0]]:
         c['_class'] = 'cw'
-        return 'Condorcet winner %s of the profile (independent pairwise count) not elected alone: %s' % (cw, res)
-    if pwv and len(res) == 1 and not isinstance(res[0], list):
-        sm = pw.ref_smith(pwv)
-        if res[0] not in sm:
-            c['_class'] = 'tie-leak'
-            return 'winner %s outside the Smith set %s of the profile' % (res, sm)
+        return 'Condorcet winner %s of the profile (independent pairwise count) not elected first: %s' % (cw, res)
+    if c['method'] == 'benham' or c['n'] == 1:
+        if len(res) != 1:
+            c['_class'] = 'length'
+            return 'one seat, %d entries: %s' % (len(res), res)
+        if len(allc) == 1 and res != allc:
+            c['_class'] = 'single'
+            return 'the only candidate %s is not elected: %s' % (allc, res)
+        if pwv and not isinstance(res[0], list):
+            sm = pw.ref_smith(pwv)
+            if res[0] not in sm:
+                c['_class'] = 'tie-leak'
+                return 'winner %s outside the Smith set %s of the profile' % (res, sm)
+        return None
+    # TidemanAlternative, several seats: min(n, candidates) distinct plain candidates, each the winner of its tier -
+    # a member of the Smith set of the candidates not elected before it (all of them when they have no contest)
+    if any(isinstance(r, list) for r in res) or len(set(res)) != len(res) or not set(res) <= set(allc):
+        c['_class'] = 'tiers-shape'
+        return 'tier winners %s are not distinct plain candidates of the votes' % (res,)
+    if len(res) != min(c['n'], len(allc)):
+        c['_class'] = 'tiers-shape'
+        return '%d entries for %d seats and %d candidates: %s' % (len(res), c['n'], len(allc), res)
+    left = list(allc)
+    for w in res:
+        sub = restrict_pairwise(pwv, left)
+        sm = pw.ref_smith(sub) if sub else left
+        if w not in sm:
+            c['_class'] = 'tiers-smith'
+            return 'tier winner %s outside the Smith set %s of the remaining candidates %s (answer %s)' % (w, sm, left, res)
+        left.remove(w)
     return None
 
 
@@ -380,6 +431,8 @@ def hyb_known(c, io, mo):
     cls = c.get('_class')
     if cls == 'degenerate':
         return 'C05-hybrid-empty-pairwise'
+    if cls == 'tiers-typeerror':
+        return 'C08-tideman-multiseat'
     if cls == 'tie-leak' and not hyb_fixed():
         return 'C05-hybrid-elimination-tie'
     return None
@@ -412,7 +465,7 @@ def gen_hyb_ballot(rng, ids, shared_p):
 
 def gen_hybrids(rng, count):
     for i in range(count):
-        m = 1 if rng.random() < 0.02 else rng.choice([2, 3, 3, 4, 4, 4, 5, 5, 6])
+        m = 1 if rng.random() < 0.04 else rng.choice([2, 3, 3, 4, 4, 4, 5, 5, 6])
         ids = list(range(1, m + 1))
         shared_p = rng.choice([0, 0, 0, 0.2])
         style = rng.random()
@@ -439,7 +492,8 @@ def gen_hybrids(rng, count):
         if r < 0.42:
             yield dict(unit='hybrid', method='benham', profile=profile, n=1, names=names)
         elif r < 0.84:
-            yield dict(unit='hybrid', method='tideman_alt', profile=profile, n=(2 if tiers_as_written() and rng.random() < 0.05 else 1), names=names)
+            # one seat (what C05 observes) in half of the cases, otherwise 2 .. candidates + 1 seats (the tiers after the first)
+            yield dict(unit='hybrid', method='tideman_alt', profile=profile, n=(1 if rng.random() < 0.5 else rng.randint(2, m + 1)), names=names)
         elif r < 0.9:
             yield dict(unit='hybrid', method='to_condorcet', profile=profile, n=1)
         elif r < 0.95:
